@@ -61,8 +61,14 @@ def main():
         try:
             res = mod.run_case(case)
         except Exception:  # noqa: BLE001
+            # an exception of the harness itself (not a verdict): run the case once more; only a repeatable failure stops the worker
             traceback.print_exc()
-            raise
+            summary["obs"]["harness_exceptions_retried"] = summary["obs"].get("harness_exceptions_retried", 0) + 1
+            try:
+                res = mod.run_case(case)
+            except Exception:  # noqa: BLE001
+                traceback.print_exc()
+                raise
         summary["cases"] += 1
         summary["execs"] += res.get("execs", 1)
         summary["invs"] += res.get("invs", 0)
